@@ -693,6 +693,9 @@ def main(run):
     per = run.pick(10, 100)
     args = [[run.seed, s, min(per, ntrees - s)] for s in range(0, ntrees, per)]
     core.run_parts(run, 'vf.props.c07:work_trees', args, timeout=run.pick(300, 1800))
+    # worker failures / oracle self-check mismatches make the run inconclusive; show them in the evidence
+    # too, because finish() prints them only when there is no violation
+    run.extra['harness_problems'] = [x[:600] for x in run.inconclusive[:8]]
     run.extra['workload'] = {
         'trees': ntrees,
         'orders': 'every permutation of the 1-3 source roots of each tree; a fresh Project per (tree, order)',
